@@ -17,6 +17,7 @@ under always_connect the CONNECT packet it sends BEFORE the handler is not a mod
 `run_async_schedules(ctx)` is called by harness/props/c04.py.
 """
 import asyncio
+import contextvars
 import itertools
 import json
 import sys
@@ -44,7 +45,15 @@ class TaskLog(_Quiet):
         self.contained.append((self.who(), str(msg), type(sys.exc_info()[1]).__name__))
 
 
-SIDE = ('bystander_refused', 'bystander_disconnect', 'reconnect', 'event')
+SIDE_BASIC = ('bystander_refused', 'bystander_disconnect', 'reconnect', 'event')
+# emits by the application to a group that contains the session under test, as their own task; EVERY transport write
+# they make (also from tasks the library spawns for them) is a suspension point of its own
+SIDE_EMIT = ('room_emit', 'to_emit', 'broadcast_emit', 'callback_emit')
+SIDE = SIDE_BASIC + SIDE_EMIT
+EMIT_EVENT = 'n'
+EMIT_DATA = {'k': 1}
+# the harness task on whose behalf a library-spawned task runs (asyncio tasks inherit a copy of the context)
+_ORIGIN = contextvars.ContextVar('verif_sched_origin', default=None)
 
 
 class AsyncRun:
@@ -56,6 +65,13 @@ class AsyncRun:
       bystander_disconnect  disconnect() of another client of '/'
       reconnect             a CONNECT for '/' repeated on the SAME transport
       event                 an EVENT with an ack id from the same client on '/'
+      room_emit / to_emit / broadcast_emit / callback_emit
+                            `sio.emit('n', {...}, room='R')` / `to=['R1', 'R2']` / to the whole namespace / to 'R' with a
+                            callback, where the addressed group holds, in the manager's iteration order: another client
+                            (transport T2), the session under test (T1), and with cfg['emit_after'] a third client (T4).
+                            Every `eio.send_packet` made on behalf of that emit — from the emit task or from tasks the
+                            library starts for it — is logged when it is ENTERED (= the packet is handed to the transport)
+                            and then suspended on a gate of its own (key '<task>><transport>#<n>').
     They are not tasks of the model (they touch no mark / membership of the sid under test:
     `Sio.C04sched.bystander_frame`); what they must do is judged by the oracle."""
 
@@ -78,6 +94,9 @@ class AsyncRun:
         self.connects = []         # (task idx, tid, ns, sid)        connect-handler invocations
         self.ev_calls = []         # (task idx, sid, args)           'ev' handler invocations
         self.expect = {}           # side task -> what the state at its release requires
+        self.timeline = []         # ('cleaned', ns, sid) | ('wenter', task, tid, data) | ('wdone', task, tid): emit side tasks
+        self.side_idx = {}
+        self.cb_calls = []
         self.sched = []
         self.conn_idx = None
         mode = cfg['mode']
@@ -127,18 +146,34 @@ class AsyncRun:
                 if mode in ('send', 'both') or i == self.conn_idx:
                     await self.gate('send', None)
                 self.events.append((i, 'send', None, None, None))
+            elif i is not None and self.side_idx.get(i) in SIDE_EMIT:
+                # the packet is handed to the transport now; the transport does not take it before the schedule says so
+                nth = sum(1 for e in self.timeline if e[0] == 'wenter' and e[1] == i and e[2] == eio_sid)
+                self.timeline.append(('wenter', i, eio_sid, pkt.data))
+                await self.gate('write', None, key='%d>%s#%d' % (i, eio_sid, nth))
+                self.timeline.append(('wdone', i, eio_sid))
             return await real_send_packet(eio_sid, pkt)
         w.eio.send_packet = send_packet
 
+        self.emit_kinds = [x for x in self.side if x in SIDE_EMIT]
+        if self.emit_kinds:
+            if cfg.get('conn'):
+                raise C.Infra('an emit side task needs the session under test connected from the start')
+            # the other client comes EARLIER than the session under test in every iteration over the namespace
+            w.open('T2')
+            w.recv('T2', '0')
         w.open('T1')
         if cfg.get('conn'):
             w.recv('T1', '0/b,')
         else:
             w.recv('T1', '0')
             w.recv('T1', '0/b,')
-        if cfg.get('others') or 'bystander_disconnect' in self.side:
+        if (cfg.get('others') or 'bystander_disconnect' in self.side) and 'T2' not in w.socks:
             w.open('T2')
             w.recv('T2', '0')
+        if self.emit_kinds and cfg.get('emit_after'):
+            w.open('T4')
+            w.recv('T4', '0')
         if 'bystander_refused' in self.side:
             w.open('T3')
         self.mgr = mgr = sio.manager
@@ -154,8 +189,33 @@ class AsyncRun:
         self.ns_order = [NS_NAMES.index(n) for n in mgr.rooms.keys() if n in NS_NAMES]
         self.sids = [mgr.sid_from_eio_sid('T1', ns) for ns in NS_NAMES]
         self.sid2 = mgr.sid_from_eio_sid('T2', '/') if 'T2' in w.socks else None
+        self.emit_args = {}
+        if self.emit_kinds:
+            order = ['T2', 'T1'] + (['T4'] if 'T4' in w.socks else [])
+            sid_of = {t: mgr.sid_from_eio_sid(t, '/') for t in order}
+
+            def fill(room, tids):
+                for t in tids:
+                    if w.run(sio.enter_room, sid_of[t], room)[0] != 'ok':
+                        raise C.Infra('enter_room failed in the set-up')
+            fill('R', order)
+            fill('R1', order[:2])
+            fill('R2', order[1:])
+
+            def on_ack(*a):
+                self.cb_calls.append(list(a))
+            self.emit_args = {'room_emit': {'room': 'R'}, 'to_emit': {'to': ['R1', 'R2']}, 'broadcast_emit': {},
+                              'callback_emit': {'room': 'R', 'callback': on_ack}}
+            for kind in self.emit_kinds:
+                kw = self.emit_args[kind]
+                got = [e for _s, e in mgr.get_participants('/', kw.get('to') or kw.get('room'))]
+                if got != order:
+                    raise C.Infra('set-up: the group addressed by %s iterates as %r, wanted %r' % (kind, got, order))
         w.sent_all()
         self._log_manager()
+
+        def emit_fn(kind):
+            return lambda: sio.emit(EMIT_EVENT, dict(EMIT_DATA), **self.emit_args[kind])
         fns = {
             'api': lambda: sio.disconnect(self.sids[0], namespace='/'),
             'client': lambda: sock.receive(eio_packet.Packet(eio_packet.MESSAGE, '1')),
@@ -165,12 +225,13 @@ class AsyncRun:
             'reconnect': lambda: sock.receive(eio_packet.Packet(eio_packet.MESSAGE, '0')),
             'event': lambda: sock.receive(eio_packet.Packet(eio_packet.MESSAGE, '27["ev",1]')),
         }
+        for kind in SIDE_EMIT:
+            fns[kind] = emit_fn(kind)
         for i, c in enumerate(cfg['causes']):
             self._spawn(i, fns[c])
-        self.side_idx = {}
         for j, sname in enumerate(self.side):
             self.side_idx[self.n_model + j] = sname
-            self._spawn(self.n_model + j, fns[sname])
+            self._spawn(self.n_model + j, fns[sname], inherit=sname in SIDE_EMIT)
         self.quiesce()
 
     # ------------------------------------------------------------------ plumbing
@@ -179,18 +240,25 @@ class AsyncRun:
             t = asyncio.current_task(self.loop)
         except RuntimeError:
             return None
-        return self.task_of.get(t)
+        i = self.task_of.get(t)
+        if i is None and t is not None:
+            o = _ORIGIN.get()
+            if o is not None and o[0] is self:
+                return o[1]         # a task the library started on behalf of harness task o[1]
+        return i
 
-    async def gate(self, kind, ns):
+    async def gate(self, kind, ns, key=None):
         i = self.idx()
         if i is None:
             return
         f = self.loop.create_future()
-        self.gates[i] = (kind, ns, f)
+        self.gates[i if key is None else key] = (kind, ns, f)
         await f
 
-    def _spawn(self, i, fn, gated_start=True):
+    def _spawn(self, i, fn, gated_start=True, inherit=False):
         async def body():
+            if inherit:
+                _ORIGIN.set((self, i))
             if gated_start:
                 await self.gate('start', None)
             return await fn()
@@ -216,7 +284,10 @@ class AsyncRun:
         async def disconnect(sid, namespace, **kw):
             if self.idx() is not None:
                 ev.append((self.idx(), 'cleanup', namespace, None, sid))
-            return await real_disc(sid, namespace, **kw)
+            try:
+                return await real_disc(sid, namespace, **kw)
+            finally:
+                self.timeline.append(('cleaned', namespace, sid))
 
         def get_namespaces():
             r = real_gn()
@@ -237,11 +308,12 @@ class AsyncRun:
 
     # ------------------------------------------------------------------ schedule
     def enabled(self):
-        """choices: a task index (release its pending future) or a tuple of CAUSE indices whose pending
-        futures are all `start` futures (released together, in that order)"""
-        pend = sorted(self.gates)
+        """choices: a task index (release its pending future), the key (a str) of a pending transport write of an
+        emit side task, or a tuple of CAUSE indices whose pending futures are all `start` futures (released
+        together, in that order)"""
+        pend = sorted(self.gates, key=lambda k: (isinstance(k, str), k))       # task gates, then write gates (str keys)
         out = list(pend)
-        starts = [i for i in pend if self.gates[i][0] == 'start' and i < self.n_model]
+        starts = [i for i in pend if isinstance(i, int) and self.gates[i][0] == 'start' and i < self.n_model]
         for k in range(2, len(starts) + 1):
             for perm in itertools.permutations(starts, k):
                 out.append(tuple(perm))
@@ -258,6 +330,12 @@ class AsyncRun:
                 self.expect[sname] = {'registered': cur is not None,
                                       'connected': bool(cur is not None and self.mgr.is_connected(cur, '/')),
                                       'sid': cur}
+            if sname in SIDE_EMIT:
+                kw = self.emit_args[sname]
+                cur = self.mgr.sid_from_eio_sid('T1', '/')
+                self.expect[sname] = {'members': [e for _s, e in self.mgr.get_participants('/', kw.get('to') or kw.get('room'))],
+                                      'session_registered': cur is not None and cur == self.sids[0],
+                                      'at': len(self.timeline)}
             kind, ns, f = self.gates.pop(i)
             f.set_result(None)
         self.quiesce()
@@ -360,7 +438,8 @@ class AsyncRun:
             connected[k] = bool(mgr.is_connected(sid, ns))
         rooms = {k: self.w.run(w.sio.rooms, self.sids[k], NS_NAMES[k])[1] for k in range(len(NS_NAMES))}
         disc, answers, acks, refusal_disc = {}, [], [], []
-        for f in decode_frames(w.sent('T1')):
+        t1_frames = decode_frames(w.sent('T1'))
+        for f in t1_frames:
             if len(f) != 4:
                 continue
             if f[0] == 1 and f[3] is not None:
@@ -401,6 +480,42 @@ class AsyncRun:
         if 'event' in self.side:
             side['event'] = {'expect': self.expect.get('event'), 'handler_runs': [(c[1], c[2]) for c in self.ev_calls],
                              'acks': acks}
+        emit = {}
+        if self.emit_kinds:
+            def n_events(frames):
+                return sum(1 for f in frames if len(f) == 4 and f[0] in (2, 5) and f[1] == '/'
+                           and isinstance(f[3], list) and f[3][:1] == [EMIT_EVENT])
+            delivered = {'T1': n_events(t1_frames)}
+            for t in ('T2', 'T4'):
+                if t in w.socks:
+                    delivered[t] = n_events(decode_frames(w.sent(t)))
+            still = {t: bool(mgr.sid_from_eio_sid(t, '/') is not None and mgr.is_connected(mgr.sid_from_eio_sid(t, '/'), '/'))
+                     for t in ('T2', 'T4') if t in w.socks}
+            for i_, sname in self.side_idx.items():
+                if sname not in SIDE_EMIT:
+                    continue
+                ended = False          # the termination of the session under test (ns '/') has completed
+                writes = []
+                pending_at_end = None
+                for e in self.timeline:
+                    if e[0] == 'cleaned' and e[1] == '/' and e[2] == self.sids[0]:
+                        if not ended:
+                            pending_at_end = [wr['to'] for wr in writes if not wr['taken']]
+                        ended = True
+                    elif e[0] == 'wenter' and e[1] == i_:
+                        writes.append({'to': e[2], 'packet': e[3] if isinstance(e[3], str) else '<binary>',
+                                       'session_ended_before': ended, 'taken': False})
+                    elif e[0] == 'wdone' and e[1] == i_:
+                        for wr in writes:
+                            if wr['to'] == e[2] and not wr['taken']:
+                                wr['taken'] = True
+                                break
+                emit[sname] = {'expect': self.expect.get(sname), 'writes': writes, 'session_ended': ended,
+                               'writes_pending_at_end': pending_at_end,
+                               'finished': self.tasks[i_].done(), 'ack_table_left': self.sids[0] in mgr.callbacks,
+                               'callback_runs': len(self.cb_calls)}
+            emit['delivered'] = delivered
+            emit['others_connected'] = still
         conn_info = {}
         n_causes_ = len(cfg['causes'])
         if self.conn_idx is not None:
@@ -430,7 +545,7 @@ class AsyncRun:
             'unfinished': unfinished, 'residue': residue, 'connected': connected,
             'rooms': {k: list(v or []) for k, v in rooms.items()},
             'disc_packets': disc, 'gate_atomic': gate_atomic, 'other_client_ok': other_ok,
-            'environ_left': 'T1' in w.sio.environ, 'side': side, 'new_session': new_state,
+            'environ_left': 'T1' in w.sio.environ, 'side': side, 'new_session': new_state, 'emit': emit,
             'stray_calls': {str(k): v for k, v in new_calls.items()},
         }
         w.close()
@@ -586,6 +701,66 @@ def oracle(obs):
             if e['handler_runs'] or e['acks']:
                 fails.append('EVENT from a session that is not connected (disconnect in progress or over): handler ran %d '
                              'times, ACKs %r (required: dropped)' % (len(e['handler_runs']), e['acks']))
+    fails += emit_oracle(obs)
+    return fails
+
+
+def emit_oracle(obs):
+    """An emit to a group that holds the session under test, concurrent with the end of that session.
+    (a) once the termination of the session has completed (manager.disconnect ran: the disconnect handler has run
+        and the session left every room) no packet of the event is HANDED to the transport for that session any
+        more (a write that was entered before and is merely still pending is fine);
+    (b) every write goes to a member of the group at the moment of the emit, each member is written to at most once,
+        and every OTHER member that stays connected receives the event exactly once;
+    (c) the emit finishes, without exception (exceptions: the general clause of `oracle`);
+    and no ack table is left behind for the session that ended."""
+    em = obs.get('emit') or {}
+    fails = []
+    n_emits = sum(1 for k in em if k in SIDE_EMIT)
+    leaving = set()
+    if 'bystander_disconnect' in obs.get('side_tasks', []):
+        leaving.add('T2')
+    for kind in SIDE_EMIT:
+        e = em.get(kind)
+        if not e:
+            continue
+        ex = e['expect']
+        if ex is None:
+            fails.append('%s was never released' % kind)
+            continue
+        per = {}
+        for wr in e['writes']:
+            per[wr['to']] = per.get(wr['to'], 0) + 1
+            if wr['to'] == 'T1' and wr['session_ended_before']:
+                fails.append('%s: packet %r was handed to the transport for the session under test AFTER its termination had '
+                             'completed (disconnect handler run, every room left)' % (kind, wr['packet']))
+            if wr['to'] not in ex['members']:
+                fails.append('%s: packet handed to %s, which was not in the addressed group when the emit was issued (%r)'
+                             % (kind, wr['to'], ex['members']))
+            if not wr['taken']:
+                fails.append('%s: the write to %s never completed' % (kind, wr['to']))
+        for t, k in per.items():
+            if k != 1:
+                fails.append('%s: %d packets handed to %s for one single-packet event' % (kind, k, t))
+        for t in ex['members']:
+            if t != 'T1' and t not in leaving and per.get(t, 0) != 1:
+                fails.append('%s: member %s of the addressed group was written to %d times' % (kind, t, per.get(t, 0)))
+        if not e['finished']:
+            fails.append('%s: the emit never returned' % kind)
+        if e['session_ended'] and e['ack_table_left']:
+            fails.append('%s: an ack-callback table exists for the session id after its end' % kind)
+        if n_emits == 1:
+            for t, k in (em.get('delivered') or {}).items():
+                want = per.get(t, 0)
+                if t == 'T1':
+                    if k > want:
+                        fails.append('%s: %d events reached T1, %d were written' % (kind, k, want))
+                elif t not in leaving and k != (1 if t in ex['members'] else 0):
+                    fails.append('%s: %s received the event %d times (member of the addressed group: %r)'
+                                 % (kind, t, k, t in ex['members']))
+    for t, ok in (em.get('others_connected') or {}).items():
+        if not ok and t not in leaving:
+            fails.append('client %s of the namespace is no longer connected' % t)
     return fails
 
 
@@ -731,7 +906,7 @@ def run_async_schedules(ctx):
         diffs = correspondence(obs, m)
         rep = {'kernel': 'sched_async', 'cfg': cfg, 'sched': obs['sched'], 'model_sched': obs['msched'],
                'observed': {k: obs[k] for k in ('calls', 'raised', 'swallowed', 'residue', 'connected', 'rooms',
-                                                'disc_packets', 'gate_atomic', 'unfinished', 'side', 'new_session')},
+                                                'disc_packets', 'gate_atomic', 'unfinished', 'side', 'new_session', 'emit')},
                'model': {k: m.get(k) for k in ('calls', 'raised', 'contained', 'residue', 'pcs', 'marks', 'refusals')},
                'oracle': fails, 'correspondence': diffs}
         if fails:
@@ -744,6 +919,23 @@ def run_async_schedules(ctx):
             flat = [x for x in obs['sched'] if not isinstance(x, list)]
             # non-trivial: a second cause starts before the first one has finished
             stats['nontrivial'].add((json.dumps(cfg, sort_keys=True), json.dumps(obs['sched'])))
+        em = obs.get('emit') or {}
+        for kind in SIDE_EMIT:
+            if kind in em:
+                e = em[kind]
+                stats['emit_runs'] = stats.get('emit_runs', 0) + 1
+                stats['emit_writes'] = stats.get('emit_writes', 0) + len(e['writes'])
+                ctx.count('sched_emit:' + kind)
+                if e['writes_pending_at_end']:
+                    # the window of the property: the session ended while writes of the emit were pending
+                    stats['emit_window'] = stats.get('emit_window', 0) + 1
+                    if [t for t in e['writes_pending_at_end'] if t != 'T1']:
+                        stats['emit_window_other'] = stats.get('emit_window_other', 0) + 1
+                    if len(stats.setdefault('emit_samples', [])) < 3 and stats['emit_window'] % 151 == 1:
+                        stats['emit_samples'].append({'cfg': cfg, 'sched': obs['sched'], 'writes': e['writes'],
+                                                      'pending_when_the_session_ended': e['writes_pending_at_end']})
+                if e['expect'] and not e['expect']['session_registered']:
+                    stats['emit_after_end'] = stats.get('emit_after_end', 0) + 1
         if len(stats['samples']) < 5 and len(obs['causes']) >= 2 and stats['runs'] % 97 == 1:
             stats['samples'].append({'cfg': cfg, 'sched': obs['sched'], 'calls': obs['calls'], 'model_sched': obs['msched']})
 
@@ -758,7 +950,8 @@ def run_async_schedules(ctx):
                 ('/conn-suspended' if cfg.get('conn') else '') + \
                 ('-' + str(cfg['conn']) if cfg.get('conn') in ('false', 'refuse') else '') + \
                 ('/always_connect' if cfg.get('always') else '') + \
-                ('/side:' + '+'.join(cfg['side']) if cfg.get('side') else '') + ('/sampled' if sample else '')
+                ('/side:' + '+'.join(cfg['side']) if cfg.get('side') else '') + \
+                ('/third-member-after' if cfg.get('emit_after') else '') + ('/sampled' if sample else '')
             stats['per_config'][key] = len(obs_all)
             ctx.count('sched_causes:' + '+'.join(cfg['causes']), len(obs_all))
             for o, m in zip(obs_all, ans):
@@ -773,18 +966,34 @@ def run_async_schedules(ctx):
         # frames of the transport itself cannot arrive once it is lost
         return not ('lost' in cs and any(x in ('reconnect', 'event') for x in sd))
     side_cfgs = [{'causes': cs, 'mode': 'both', 'others': False, 'conn': False, 'side': [sd]}
-                 for cs in cause_sets(2) for sd in SIDE if side_ok(cs, [sd])]
+                 for cs in cause_sets(2) for sd in SIDE_BASIC if side_ok(cs, [sd])]
     run_cfgs(side_cfgs)
-    stats['side_runs'] = sum(v for k, v in stats['per_config'].items() if '/side:' in k)
+    # emits to a group that holds the session under test (another member earlier in the iteration order, a third one
+    # after it), every transport write of the emit a suspension point of its own: all release orders
+    def emit_cfg(cs, kind, mode, after, extra=()):
+        return {'causes': cs, 'mode': mode, 'others': False, 'conn': False, 'side': [kind] + list(extra), 'emit_after': after}
+    one, two = cause_sets(1), [cs for cs in cause_sets(2) if len(cs) == 2]
+    run_cfgs([emit_cfg(cs, k, 'both', True) for cs in one for k in SIDE_EMIT])
+    if ctx.thorough:
+        run_cfgs([emit_cfg(cs, k, md, af) for cs in one for k in SIDE_EMIT for md in ('handler', 'send') for af in (False, True)])
+        run_cfgs([emit_cfg(cs, k, 'both', False) for cs in two for k in SIDE_EMIT])
+        run_cfgs([emit_cfg(cs, 'room_emit', 'handler', True) for cs in two])
+        run_cfgs([emit_cfg(cs, k, 'both', False, [sd]) for cs in one for k in SIDE_EMIT
+                  for sd in ('bystander_disconnect', 'bystander_refused', 'event') if side_ok(cs, [sd])])
+    else:
+        run_cfgs([emit_cfg(cs, 'room_emit', 'handler', False) for cs in two])
+        run_cfgs([emit_cfg(cs, k, 'both', ctx.rng.random() < 0.5) for cs in two for k in SIDE_EMIT if k != 'room_emit'],
+                 sample=12)
+    stats['side_runs'] = sum(v for k, v in stats['per_config'].items() if '/side:' in k and '_emit' not in k)
     three = [cs for cs in cause_sets(3) if len(cs) == 3]
     if ctx.thorough:
         run_cfgs([{'causes': cs, 'mode': md, 'others': False, 'conn': False, 'side': [sd]}
-                  for cs in cause_sets(2) for sd in SIDE for md in ('handler', 'send') if side_ok(cs, [sd])])
+                  for cs in cause_sets(2) for sd in SIDE_BASIC for md in ('handler', 'send') if side_ok(cs, [sd])])
         run_cfgs([{'causes': cs, 'mode': 'both', 'others': False, 'conn': False, 'side': [sd]}
-                  for cs in three for sd in SIDE if side_ok(cs, [sd])])
+                  for cs in three for sd in SIDE_BASIC if side_ok(cs, [sd])])
         run_cfgs([{'causes': cs, 'mode': 'both', 'others': False, 'conn': False, 'side': list(sds)}
-                  for cs in cause_sets(2) for sds in itertools.combinations(SIDE, 2) if side_ok(cs, sds)])
-        stats['side_runs'] = sum(v for k, v in stats['per_config'].items() if '/side:' in k)
+                  for cs in cause_sets(2) for sds in itertools.combinations(SIDE_BASIC, 2) if side_ok(cs, sds)])
+        stats['side_runs'] = sum(v for k, v in stats['per_config'].items() if '/side:' in k and '_emit' not in k)
     if ctx.thorough:
         run_cfgs([{'causes': cs, 'mode': md, 'others': o, 'conn': False}
                   for cs in three for md in modes for o in (False, True)])
@@ -833,6 +1042,21 @@ def run_async_schedules(ctx):
     cov['sched_side_tasks'] = ('concurrent non-terminating operations, all release orders with <=2 causes (3 in thorough): refused '
                                'CONNECT of another transport on the namespace, disconnect() of another client of the namespace, '
                                'CONNECT repeated on the same transport, EVENT with ack id from the same client')
+    cov['sched_room_emit_schedules'] = stats.get('emit_runs', 0)
+    cov['sched_room_emit_writes_gated'] = stats.get('emit_writes', 0)
+    cov['sched_room_emit_session_ended_while_writes_pending'] = stats.get('emit_window', 0)
+    cov['sched_room_emit_session_ended_while_write_to_another_member_pending'] = stats.get('emit_window_other', 0)
+    cov['sched_room_emit_issued_after_the_end'] = stats.get('emit_after_end', 0)
+    cov['sched_room_emit_samples'] = stats.get('emit_samples', [])
+    cov['sched_room_emit_rule'] = (
+        'emit to room R / to=[R1, R2] / whole namespace / room with callback, the addressed group iterating as [another client, '
+        'the session under test, (a third client)], as its own task concurrent with 1 cause (all release orders, suspension in '
+        'handler and send, 3 members) and 2 causes (' + ('all release orders' if ctx.thorough else
+        'room emit: all release orders with suspension in the handler; the other kinds sampled') + '); every eio.send_packet '
+        'made for the emit (from the emit task or tasks the library starts for it) is logged at entry and suspended on its own '
+        'gate. Oracle only (not a model task: Sio.C04sched.bystander_frame): no packet handed to the transport for the session '
+        'after its manager.disconnect completed; every write to a member of the group at the time of the emit, at most one per '
+        'member; every other member receives the event exactly once; the emit returns without exception; no ack table left')
     cov['sched_distinct_nontrivial'] = len(stats['nontrivial'])
     cov['sched_rule'] = 'non-trivial = schedule of >=2 concurrent causes on one sid; every schedule runs on a fresh real AsyncServer and on Sched.run true'
     cov['sched_schedules_per_config'] = stats['per_config']
@@ -850,7 +1074,7 @@ def replay(ctx, rep):
     m = C.batch('sched', [model_line(obs)])[0]
     print('implementation:', json.dumps({k: obs[k] for k in ('causes', 'mode', 'side_tasks', 'sched', 'msched', 'calls', 'raised',
                                                                'swallowed', 'residue', 'connected', 'gate_atomic', 'side',
-                                                               'new_session')}, default=str))
+                                                               'new_session', 'emit')}, default=str))
     print('model:         ', json.dumps(m))
     fails = oracle(obs)
     print('oracle:        ', 'holds' if not fails else fails)
